@@ -172,7 +172,10 @@ RESIDUALS = {
     "parshift": (("u", "x", "D"), lambda u, x, D, c: u + D * c[0] - c[1]),
     "paronly": (("x", "D"), lambda x, D, c: D * c[0] - x),
     "dataf": (("u", "x", "f"), lambda u, x, f, c: u - f * c[0]),
+    "per": (("u_left", "u_right", "x_right"), lambda ul, ur, xr, c: ul - ur * c[0] - c[1] * xr),
+    "perD": (("u_left", "u_right", "D"), lambda ul, ur, D, c: ul * D - ur - c[1]),
 }
+SAMPLER_KINDS = ("pinn", "mean", "ritz", "single", "adaptive", "hpm_sampler", "integro")
 PENALTIES = {
     "sq": lambda D, c: (D - c[0]) * (D - c[0]),
     "lin": lambda D, c: D * c[0],
@@ -241,7 +244,7 @@ def build(case):
 
         def forward(self, points):
             points = self._fix_points_order(points)
-            x = points.as_tensor
+            x = points.as_tensor.to(self.coef.dtype)     # library grid samplers emit float32
             y = torch.zeros_like(x)
             for k in range(self.coef.numel()):
                 y = y + self.coef[k] * x ** k if k else y + self.coef[0]
@@ -261,6 +264,19 @@ def build(case):
         elif m["kind"] == "fcn":
             torch.manual_seed(m["seed"])
             mod = tp.models.FCN(X, U, hidden=tuple(m["hidden"]))
+            for pn, p in mod.named_parameters():
+                reg_tensor(f"model{mi}.{pn}", p)
+            B.model_syms.append(None)
+        elif m["kind"] == "deeponet":
+            torch.manual_seed(m["seed"])
+            Ix = tp.domains.Interval(X, 0.0, 1.0); Ik = tp.domains.Interval(tp.spaces.R1("k"), 0.0, 1.0)
+            fspace = tp.spaces.FunctionSpace(Ix, tp.spaces.R1("e"))
+            fset = tp.domains.CustomFunctionSet(fspace, tp.samplers.GridSampler(Ik, m["n_fn"]).make_static(), lambda k, x: k * x)
+            trunk = tp.models.FCTrunkNet(X, hidden=(3,))
+            branch = tp.models.FCBranchNet(fspace, hidden=(3,),
+                                           discretization_sampler=tp.samplers.GridSampler(Ix, m["n_disc"]).make_static())
+            mod = tp.models.DeepONet(trunk, branch, U, output_neurons=2)
+            mod._harness = dict(fset=fset, Ix=Ix)      # one function set per DeepONet, shared by its conditions
             for pn, p in mod.named_parameters():
                 reg_tensor(f"model{mi}.{pn}", p)
             B.model_syms.append(None)
@@ -316,10 +332,14 @@ def build(case):
         kw = {}
         if par is not None:
             kw["parameter"] = par
-        if kind in ("pinn", "mean", "adaptive"):
-            names, f = RESIDUALS[c["res"]]
-            names = tuple(f"D{c['param']}" if n == "D" else n for n in names)
-            fn = make_fn(names, f, cc)
+        if kind in SAMPLER_KINDS:
+            if kind == "integro":
+                names = ("u", "u_integral")
+                fn = make_fn(names, lambda u, ui, c_: u - c_[0] * ui.mean(dim=1, keepdim=True) - c_[1], cc)
+            else:
+                names, f = RESIDUALS[c["res"]]
+                names = tuple(f"D{c['param']}" if n == "D" else n for n in names)
+                fn = make_fn(names, f, cc)
             if c.get("lib_sampler"):
                 I = tp.domains.Interval(X, 0.0, 1.0)
                 sampler = tp.samplers.GridSampler(I, n_points=c["lib_sampler"]).make_static()
@@ -336,8 +356,51 @@ def build(case):
             elif kind == "mean":
                 cond = tp.conditions.MeanCondition(mod, sampler, fn, name=name, weight=w,
                                                    track_gradients=c.get("track", True), **kw)
+            elif kind == "ritz":
+                cond = tp.conditions.DeepRitzCondition(mod, sampler, fn, name=name, weight=w,
+                                                       track_gradients=c.get("track", True), **kw)
+            elif kind == "single":
+                cond = tp.conditions.SingleModuleCondition(mod, sampler, fn, error_fn=lambda r: torch.sum(torch.square(r), dim=1),
+                                                           reduce_fn=torch.sum, name=name, weight=w,
+                                                           track_gradients=c.get("track", True), **kw)
+            elif kind == "hpm_sampler":
+                cond = tp.conditions.HPM_EquationLoss_at_Sampler(mod, sampler, fn, name=name, weight=w, **kw)
+            elif kind == "integro":
+                cond = tp.conditions.IntegroPINNCondition(mod, sampler, fn, FixedSampler([c["int_set"]]), name=name, weight=w,
+                                                          track_gradients=c.get("track", True), **kw)
             else:
                 cond = tp.conditions.AdaptiveWeightsCondition(mod, sampler, fn, name=name, weight=w, **kw)
+        elif kind == "pideeponet":
+            h = mod._harness
+            cond = tp.conditions.PIDeepONetCondition(mod, h["fset"], tp.samplers.GridSampler(h["Ix"], c["n"]).make_static(),
+                                                     make_fn(("u", "x"), lambda u, x, c_: u - c_[0] * x, cc), name=name, weight=w)
+        elif kind == "deeponet_data":
+            g = torch.Generator().manual_seed(c["seed"])
+            m_ = case["models"][c["model"]]
+            bd = torch.rand(c["nf"], m_["n_disc"], 1, generator=g); td = torch.rand(c["nt"], 1, generator=g)
+            od = torch.rand(c["nf"], c["nt"], 1, generator=g)
+            loader = tp.utils.DeepONetDataLoader(bd, td, od, tp.spaces.R1("e"), X, U, c["bB"], c["bT"],
+                                                 shuffle_branch=False, shuffle_trunk=False)
+            cond = tp.conditions.DeepONetDataCondition(mod, loader, norm=2, name=name, weight=w)
+        elif kind == "periodic":
+            names, f = RESIDUALS[c["res"]]
+            names = tuple(f"D{c['param']}" if n == "D" else n for n in names)
+            I = tp.domains.Interval(X, float(Fraction(c["lb"])), float(Fraction(c["ub"])))
+            cond = tp.conditions.PeriodicCondition(mod, I, make_fn(names, f, cc), name=name, weight=w,
+                                                   track_gradients=c.get("track", True), **kw)
+        elif kind in ("hpm_data", "hpcm"):
+            xs = torch.tensor([[float(Fraction(a))] for a in c["x"]], dtype=dt)
+            ys = torch.tensor([[float(Fraction(a))] for a in c["y"]], dtype=dt)
+            loader = tp.utils.PointsDataLoader((tp.spaces.Points(xs, X), tp.spaces.Points(ys, U)),
+                                               batch_size=c["bs"], shuffle=False)
+            if kind == "hpm_data":
+                names, f = RESIDUALS[c["res"]]
+                names = tuple(f"D{c['param']}" if n == "D" else n for n in names)
+                cond = tp.conditions.HPM_EquationLoss_at_DataPoints(mod, loader, 1, make_fn(names, f, cc), name=name, weight=w, **kw)
+            else:
+                corr = B.models[c["model2"]]
+                cond = tp.conditions.HPCMCondition(mod, corr, loader, lambda x: corr(tp.spaces.Points(x, X)), norm=2,
+                                                   use_full_dataset=True, name=name, weight=w)
         elif kind == "data":
             xs = torch.tensor([[float(Fraction(a))] for a in c["x"]], dtype=dt)
             ys = torch.tensor([[float(Fraction(a))] for a in c["y"]], dtype=dt)
@@ -393,11 +456,11 @@ def cond_tensor_ids(case, B, c, where, ci):
     ids = []
     if c.get("param") is not None:
         ids += B.param_ids[c["param"]]
-    if c.get("model") is not None:
-        m = case["models"][c["model"]]
-        for name, t, tids in B.tensors:
-            if name.startswith(f"model{c['model']}."):
-                ids += tids
+    for key in ("model", "model2"):
+        if c.get(key) is not None:
+            for name, t, tids in B.tensors:
+                if name.startswith(f"model{c[key]}."):
+                    ids += tids
     if c["kind"] == "adaptive":
         k = ci if where == "t" else len(case["train"]) + ci
         for name, t, tids in B.tensors:
@@ -412,7 +475,47 @@ def cond_syms(case, B, c, where, ci):
     cc = tuple(Fraction(a) for a in c.get("c", ()))
     msym = B.model_syms[c["model"]] if c.get("model") is not None else None
     D = Sym.par(B.param_ids[c["param"]][0]) if c.get("param") is not None else None
-    if kind in ("pinn", "mean", "adaptive"):
+    if kind == "periodic":
+        names, f = RESIDUALS[c["res"]]
+        lb, ub = Sym.lift(Fraction(c["lb"])), Sym.lift(Fraction(c["ub"]))
+        args = dict(u_left=msym(lb), u_right=msym(ub), x_left=lb, x_right=ub, D=D)
+        r = f(*[args[n] for n in names], cc)
+        return [r * r]
+    if kind == "integro":
+        ui = mean_of([msym(Sym.lift(Fraction(a))) for a in c["int_set"]])
+        sets = c["sets"][:1] if c.get("static") else c["sets"]
+        out = []
+        for s_ in sets:
+            terms = []
+            for xv in s_:
+                r = msym(Sym.lift(Fraction(xv))) - ui * cc[0] - cc[1]
+                terms.append(r * r)
+            out.append(mean_of(terms))
+        return out
+    if kind in ("hpm_data", "hpcm"):
+        xs, ys, bs = c["x"], c["y"], c["bs"]
+        n = len(xs)
+        nb = math.ceil(n / bs)
+        batches = []
+        for b in range(nb):
+            terms = []
+            for i in range(b * bs, min((b + 1) * bs, n)):
+                x = Sym.lift(Fraction(xs[i]))
+                if kind == "hpm_data":
+                    names, f = RESIDUALS[c["res"]]
+                    args = dict(x=x, D=D)
+                    d = f(*[args[nm] for nm in names], cc)
+                else:
+                    d = msym(x) - Fraction(ys[i]) - B.model_syms[c["model2"]](x)
+                terms.append(d * d)
+            batches.append(mean_of(terms))
+        if kind == "hpcm":
+            tot = batches[0] * Fraction(1, nb)
+            for b in batches[1:]:
+                tot = tot + b * Fraction(1, nb)
+            return [tot]
+        return batches
+    if kind in SAMPLER_KINDS:
         names, f = RESIDUALS[c["res"]]
         sets = c["sets"][:1] if (kind == "adaptive" or c.get("static")) else c["sets"]
         out = []
@@ -424,13 +527,13 @@ def cond_syms(case, B, c, where, ci):
                 args = dict(u=msym(x) if msym else None, x=x, D=D,
                             f=(x * cc[1] + cc[2]) if "f" in names else None)
                 r = f(*[args[n] for n in names], cc)
-                if kind == "mean":
+                if kind in ("mean", "ritz"):
                     terms.append(r)
-                elif kind == "pinn":
+                elif kind in ("pinn", "single", "hpm_sampler"):
                     terms.append(r * r)
                 else:
                     terms.append(Sym.par(aw[pi]).rev() * (r * r))
-            out.append(mean_of(terms))
+            out.append(mean_of(terms) * len(terms) if kind == "single" else mean_of(terms))
         return out
     if kind == "data":
         xs, ys, bs = c["x"], c["y"], c["bs"]
@@ -588,8 +691,9 @@ def run_reference(case, N=None, B=None):
     for j in range(N):
         opt.zero_grad()
         total = 0
-        for cond in B.train:
-            total = total + cond.weight * cond(device="cpu", iteration=j)
+        for c, cond in zip(case["train"], B.train):
+            # the weight the HARNESS configured, never a value read back from the library object
+            total = total + float(Fraction(c["weight"])) * cond(device="cpu", iteration=j)
         total.backward()
         opt.step()
         if sched is not None and (j + 1) % freq == 0:
@@ -614,9 +718,9 @@ def gen_points(rng, n):
 def gen_cond(rng, case, where, allow_probe=True):
     nm, npar = len(case["models"]), len(case["params"])
     poly_models = [i for i, m in enumerate(case["models"]) if m["kind"] in ("poly", "seq")]
-    kinds = ["pinn", "pinn", "mean", "data", "data"]
+    kinds = ["pinn", "pinn", "mean", "data", "data", "ritz", "single", "periodic", "periodic", "integro", "hpcm"]
     if npar:
-        kinds += ["param", "pinn"]
+        kinds += ["param", "pinn", "hpm_sampler", "hpm_data", "periodic"]
     if where == "t":
         kinds += ["adaptive"]
     if allow_probe and [i for i in poly_models if case["models"][i]["kind"] == "poly"]:
@@ -625,21 +729,48 @@ def gen_cond(rng, case, where, allow_probe=True):
     c = dict(kind=kind, weight=dy(rng, 0, 2, 4) if rng.random() < 0.85 else dy(rng, -1, 0, 4))
     if c["weight"] == "0" and rng.random() < 0.7:
         c["weight"] = "1"
-    if kind in ("pinn", "mean", "adaptive"):
+    if c["weight"] == "1" and kind in ("periodic", "integro", "hpcm", "hpm_sampler", "hpm_data", "ritz", "single"):
+        c["weight"] = rng.choice(["1/2", "3/4", "3/2", "7/4", "-1/4"])
+    if kind in SAMPLER_KINDS:
         c["model"] = rng.randrange(nm)
         use_par = npar and rng.random() < 0.6
-        if use_par:
+        if kind == "hpm_sampler":
+            c["param"] = rng.randrange(npar)
+            c["res"] = "paronly"
+        elif kind == "integro":
+            c["res"] = "integro"
+            c["int_set"] = gen_points(rng, rng.choice([1, 2, 3]))
+        elif use_par:
             c["param"] = rng.randrange(npar)
             c["res"] = rng.choice(["par", "parshift"])
         else:
-            c["res"] = rng.choice(["lin", "lin", "quad", "dataf"]) if kind != "mean" else rng.choice(["lin", "quad"])
+            c["res"] = rng.choice(["lin", "lin", "quad", "dataf"]) if kind not in ("mean", "ritz") else rng.choice(["lin", "quad"])
         npts = rng.choice([1, 2, 3, 4])
         nsets = 1 if (kind == "adaptive" or c["res"] == "dataf") else rng.choice([1, 1, 2, 3])
         c["sets"] = [gen_points(rng, npts) for _ in range(nsets)]
         c["static"] = kind == "adaptive" or (nsets == 1 and rng.random() < 0.3)
         c["c"] = [dy(rng, -1, 1, 4), dy(rng, -1, 1, 4), dy(rng, -1, 1, 4)]
-        if kind != "adaptive":
+        if kind not in ("adaptive", "hpm_sampler"):
             c["track"] = rng.random() < 0.7
+    elif kind == "periodic":
+        c["model"] = rng.randrange(nm)
+        c["lb"], c["ub"] = rng.choice([("-1", "1"), ("0", "1"), ("-1/2", "3/4"), ("1/4", "2")])
+        c["c"] = [dy(rng, -1, 1, 4), dy(rng, -1, 1, 4), dy(rng, -1, 1, 4)]
+        if npar and rng.random() < 0.5:
+            c["param"] = rng.randrange(npar); c["res"] = "perD"
+        else:
+            c["res"] = "per"
+        c["track"] = rng.random() < 0.7
+    elif kind in ("hpm_data", "hpcm"):
+        c["model"] = rng.randrange(nm)
+        n = rng.randint(1, 4)
+        c["x"], c["y"] = gen_points(rng, n), gen_points(rng, n)
+        c["bs"] = rng.randint(1, n + 1)
+        c["c"] = [dy(rng, -1, 1, 4), dy(rng, -1, 1, 4), dy(rng, -1, 1, 4)]
+        if kind == "hpm_data":
+            c["param"] = rng.randrange(npar); c["res"] = "paronly"
+        else:
+            c["model2"] = rng.randrange(nm)
     elif kind == "data":
         c["model"] = rng.randrange(nm)
         n = rng.randint(1, 5)
@@ -706,6 +837,21 @@ def gen_case_torch(rng, Nmax=8):
         return c
     case["train"] = [cond("t") for _ in range(rng.choice([1, 2, 3, 4]))]
     case["val"] = [cond("v") for _ in range(rng.choice([0, 0, 1, 2]))]
+    if rng.random() < 0.35:
+        # a DeepONet with its own conditions (they use the iteration argument to cache the branch evaluation)
+        case["models"].append(dict(kind="deeponet", seed=rng.randrange(10 ** 6), n_fn=rng.choice([2, 3]), n_disc=rng.choice([3, 4])))
+        mi = len(case["models"]) - 1
+
+        def dcond():
+            w = rng.choice(["1/2", "3/4", "3/2", "7/4", "1"])
+            if rng.random() < 0.5:
+                return dict(kind="pideeponet", weight=w, model=mi, n=rng.choice([2, 3, 5]), c=[dy(rng, -1, 1, 4)])
+            nf, nt = rng.choice([2, 3]), rng.choice([2, 3, 4])
+            return dict(kind="deeponet_data", weight=w, model=mi, seed=rng.randrange(10 ** 6), nf=nf, nt=nt,
+                        bB=rng.randint(1, nf), bT=rng.randint(1, nt))
+        case["train"] += [dcond() for _ in range(rng.choice([1, 2]))]
+        if rng.random() < 0.3:
+            case["val"].append(dcond())
     case["N"] = rng.randint(1, Nmax)
     case["sanity"] = bool(case["val"]) and rng.random() < 0.5
     case["val_every"] = rng.choice([0, 1, 2, 3]) if case["val"] else 0
